@@ -22,24 +22,28 @@ def _retag(ps, prop):
 
 def _c02(tier, seed):
     ps = families.c02(tier, seed) + families.wide("C02")
+    ps = ps + families.uniform_twins(ps, 2 if tier == "quick" else 1)
     ps = ps + families.own_placements("C02", ps)
     return ps + families.canaries_eq(ps)
 
 
 def _c03(tier, seed):
     ps = families.c03(tier, seed) + families.wide("C03")
+    ps = ps + families.uniform_twins(ps, 2 if tier == "quick" else 1)
     ps = ps + families.own_placements("C03", ps)
     return ps + families.canaries_ord(ps)
 
 
 def _c05(tier, seed):
     ps = families.c05(tier, seed) + families.wide("C05")
+    ps = ps + families.uniform_twins(ps, 2 if tier == "quick" else 1)
     ps = ps + families.own_placements("C05", ps)
     return ps + families.canaries_hash(ps)
 
 
 def _c07(tier, seed):
     ps = families.c07(tier, seed) + families.wide("C07")
+    ps = ps + families.uniform_twins(ps, 2 if tier == "quick" else 1)
     ps = ps + families.own_placements("C07", ps)
     return ps + families.canaries_clone(ps)
 
